@@ -32,7 +32,7 @@ def M(st, ctx):
 
 def limit_of(c, env):
     Lm = c.st.deref(env).fields["loop_iteration_limit"].t
-    return Lm, z3.And(U.is_int(Lm), U.i(Lm) != 0)
+    return Lm, U.is_int(Lm)
 
 
 @contract(CTX + ".raise_for_loop_limit", prop="C06")
